@@ -345,9 +345,15 @@ Qed.
 Lemma X_propagate_task : forall fuel s t, X s -> X (propagate_task fuel s t).
 Proof.
   induction fuel as [|fuel IH]; intros s t H; cbn [propagate_task].
-  - destruct (negb _); auto. destruct (task_is_runnable s t); [apply X_task_reschedule; auto|].
+  - destruct (negb _); auto.
+    set (s' := if task_is_runnable s t then task_reschedule s t else s).
+    assert (H' : X s') by (unfold s'; destruct (task_is_runnable s t); [apply X_task_reschedule|]; auto).
+    clearbody s'. clear H s. rename s' into s, H' into H.
     destruct (twaiting _); auto.
-  - destruct (negb _); auto. destruct (task_is_runnable s t); [apply X_task_reschedule; auto|].
+  - destruct (negb _); auto.
+    set (s' := if task_is_runnable s t then task_reschedule s t else s).
+    assert (H' : X s') by (unfold s'; destruct (task_is_runnable s t); [apply X_task_reschedule|]; auto).
+    clearbody s'. clear H s. rename s' into s, H' into H.
     destruct (twaiting (gett s t)) as [l|]; auto.
     set (s1 := match lowner (getl s l) with Some o => propagate_task fuel s o | None => s end).
     assert (H1 : X s1) by (unfold s1; destruct (lowner (getl s l)); auto).
